@@ -131,3 +131,50 @@ Definition function_signal_values (times : list R) (lead trail : R) (fvals : lis
   let nb := n_buffer lead dt in
   let out := match fs with [] => fvals | _ => apply_filters dt fvals fs end in
   firstn (length times) (skipn nb out).
+
+(* ---------------------------------------------------------------- op histories on ONE signal object
+   FunctionSignal (one function, no buffers): state = (_factors[0], _filters[0]); the samples are recomputed from the
+   state on every read:  values = _apply_filters(func(times) * factor, filters).
+     filter_frequencies(g, fr) : filters ++ [(g, fr)]          `sig *= c` : factor * c        `sig /= c` : factor / c
+     reading (.values, .spectrum, ...) changes nothing;  copy()/with_times(same times) carry the state over.
+   Signal: the state is the values array:  filter replaces it by filter_frequencies, `*=` / `/=` scale it. *)
+Inductive sig_op : Type :=
+  | OpFilter (g : R -> C) (force_real : bool)
+  | OpScale (c : R)
+  | OpDiv (c : R)
+  | OpRead.
+
+Record fs_state := { fs_factor : R; fs_filters : list ((R -> C) * bool) }.
+Definition fs_init : fs_state := {| fs_factor := 1; fs_filters := [] |}.
+
+Definition fs_step (st : fs_state) (op : sig_op) : fs_state :=
+  match op with
+  | OpFilter g fr => {| fs_factor := fs_factor st; fs_filters := fs_filters st ++ [(g, fr)] |}
+  | OpScale c => {| fs_factor := (fs_factor st * c)%R; fs_filters := fs_filters st |}
+  | OpDiv c => {| fs_factor := (fs_factor st / c)%R; fs_filters := fs_filters st |}
+  | OpRead => st
+  end.
+
+Definition fs_read (times fvals : list R) (st : fs_state) : list R :=
+  function_signal_values times 0 0 (map (fun v => (v * fs_factor st)%R) fvals) (fs_filters st).
+
+(* values read after every op of a history *)
+Fixpoint fs_trace (times fvals : list R) (st : fs_state) (ops : list sig_op) : list (list R) :=
+  match ops with
+  | [] => []
+  | op :: rest => let st' := fs_step st op in fs_read times fvals st' :: fs_trace times fvals st' rest
+  end.
+
+Definition sg_step (times : list R) (values : list R) (op : sig_op) : list R :=
+  match op with
+  | OpFilter g fr => filter_frequencies times values g fr
+  | OpScale c => map (fun v => (v * c)%R) values
+  | OpDiv c => map (fun v => (v / c)%R) values
+  | OpRead => values
+  end.
+
+Fixpoint sg_trace (times values : list R) (ops : list sig_op) : list (list R) :=
+  match ops with
+  | [] => []
+  | op :: rest => let v' := sg_step times values op in v' :: sg_trace times v' rest
+  end.
